@@ -134,7 +134,7 @@ REGISTRY["C17"] = {
     "modules": ["contracts.rt"],
     "category": "exploration",
     "technique": "run-time contracts on the real decoders/formatters/semantics (sidecar, no /repo edit) evaluated on spec-driven generated inputs; bounded stand-in, not a proof",
-    "level_text": "Bounded (concrete inputs): for every importable cpu module and mode, every shipped specification is exercised with byte strings matching its fixed bits (seeded free bits, tails, x86 prefixes) plus random strings; the contract 'decode returns or reports and never raises; the instruction is well formed; str/toks/pickle/execute do not raise' is evaluated on each. Nothing is proved: the setup functions, formatters and semantics (several thousand Python functions over byte strings, pyparsing and struct) are outside the symbolic engine's reach.",
+    "level_text": "Bounded (concrete inputs): for every importable cpu module and mode, every shipped specification is exercised with byte strings matching its fixed bits (seeded free bits, tails, x86 prefixes) plus random strings; the contract 'decode returns or reports and never raises; the instruction is well formed; str/toks/pickle do not raise, also with the instruction's address set; applying it to the empty map and to states whose registers all hold constants (zeros, ones, seeded) does not raise' is evaluated on each (x86/x64: every specification also under an operand-size and an address-size prefix). Nothing is proved: the setup functions, formatters and semantics (several thousand Python functions over byte strings, pyparsing and struct) are outside the symbolic engine's reach.",
     "level_note": "a contract-based proof is not within reach for this property (see DESIGN.md section 5); the run-time contract is the bounded stand-in the brief allows, labelled bounded. Known findings are matched by (cpu, failure signature).",
     "design_ref": "DESIGN.md section 4 (C17)",
     "rule": "per shipped specification: byte strings matching its fixed bits (seeded free bits, tails, prefixes) plus random strings; distinct_nontrivial = number of different mnemonics decoded",
@@ -196,21 +196,21 @@ REGISTRY["C14"] = {
 
 REGISTRY["C15"] = {
     "modules": ["contracts.formats"],
-    "category": "proof",
-    "technique": "contract-based deductive verification of Elf.loadsegment on a stub segment with symbolic p_vaddr/p_offset/p_filesz/p_memsz and a ghost file object: page arithmetic and zero fill discharged by z3 for all field values",
-    "level_text": "Proof level for the ELF segment-loading arithmetic: for ALL p_vaddr, p_offset (congruent modulo the page size), p_filesz <= p_memsz and the page sizes of the tier (2^8, 2^12, 2^16; thorough: 2^8..2^16) the mapping returned has a page-aligned base inside the page of p_vaddr, every file-backed byte lands at its virtual address, and the bytes in [filesz, memsz) are zero. The other clauses of the property (relocation slots, program counter, whole loaders for PE/Mach-O/HEX/SREC/raw) are not decided by this check.",
-    "level_note": "trusted: z3, symx engine, the ghost file object (records offset/size of the read, the cut and the zero padding). Whole-loader behaviour is not covered.",
-    "design_ref": "DESIGN.md section 4 (C15)",
-    "explanation": "proof of the ELF loadsegment page arithmetic and zero fill",
+    "category": "other",
+    "technique": "contract-based deductive verification of Elf.loadsegment on a stub segment with symbolic p_vaddr/p_offset/p_filesz/p_memsz and a ghost file object (page arithmetic and zero fill discharged by z3 for all field values), plus a run-time contract on load_program for synthesised ELF executables",
+    "level_text": "Two components, kept apart in the evidence. PROOF LEVEL for the ELF segment-loading arithmetic: for ALL p_vaddr, p_offset (congruent modulo the page size with p_align = page size, and unrelated with p_align = 1), p_filesz <= p_memsz and the page sizes of the tier (2^8, 2^12, 2^16; thorough: 2^8..2^16) the mapping returned has a page-aligned base inside the page of p_vaddr, every file-backed byte lands at its virtual address, and the bytes in [filesz, memsz) are zero. BOUNDED (run-time contract, never counted as proved): load_program on synthesised i386 / x86-64 executables with 1-3 loadable segments in distinct pages, sharing a page, or adjacent mid-page: every byte of every segment is in the task memory at its virtual address and equals the file byte (zero beyond filesz), the program counter is the entry point and the instruction fetched there is the file's. Relocation slots and the PE/Mach-O/HEX/SREC/raw loaders are not decided by this check.",
+    "level_note": "trusted: z3, symx engine, the ghost file object (records offset/size of the read, the cut and the zero padding; code that concatenates the read with other data is outside its reach and reported as undecided). The run-time contract is bounded by the generator (150 images quick / 5000 thorough).",
+    "design_ref": "DESIGN.md section 0.2 and section 4 (C15)",
+    "explanation": "proof of the ELF loadsegment page arithmetic and zero fill; run-time contract on the ELF loader for synthesised images",
     "trusted_base": _TB + ["ghost file object (contracts/formats.py: StubFile/GhostBytes)"],
-    "assumptions": _AS_COMMON + ["only Elf.loadsegment is under contract; loaders are not"],
+    "assumptions": _AS_COMMON + ["only Elf.loadsegment is under a symbolic contract; the Linux x86/x64 ELF loaders are under a run-time contract; other loaders are not covered"],
 }
 
 REGISTRY["C02"] = {
     "modules": ["contracts.blockstep"],
     "category": "other",
     "technique": "contract-based deductive verification of the real code: for decoded instruction sequences the block map (S >> mapper(seq)) and the step-by-step route (each instruction applied to a copy of S) are both executed by amoco on a state whose registers are SYMBOLIC constants; postcondition 'equal whenever both are constants' discharged by z3 on every path",
-    "level_text": "Bounded symbolic verification: for 12 ISA modules with semantics (RISC-V 32/64, x86, x64, MIPS, ARMv7 both modes, SPARC, MSP430, Z80, SH2, V850, 65C02), seeded sequences of 1..3 (thorough: 1..4) spec-driven concrete encodings whose semantics run, memory tracing / aliasing settings enumerated: for ALL register states the two routes agree on every register and on every memory location written at a constant address whenever both produce constants. No reference semantics is involved (both routes are amoco's), so a semantics bug common to both routes is invisible here (that is C06's subject).",
+    "level_text": "Bounded symbolic verification: for 12 ISA modules with semantics (RISC-V 32/64, x86, x64, MIPS, ARMv7 both modes, SPARC, MSP430, Z80, SH2, V850, 65C02), a FIXED corpus (independent of VERIF_SEED) of sequences of 1..3 (thorough: 1..4) spec-driven concrete encodings whose semantics run, hand-encoded overlapping store/load patterns through one base register (x86, RV32I) and x86/x64 shifts and rotates of 8/16-bit operands by CL, memory tracing / aliasing settings enumerated: for ALL register states the two routes agree on every register and on every memory location written at a constant address (evaluated and looked up) whenever both produce constants or compositions of constants. No reference semantics is involved (both routes are amoco's), so a semantics bug common to both routes is invisible here (that is C06's subject).",
     "level_note": "trusted: z3, symx engine/shims. Bounded by the enumerated sequences; memory is initially unknown, so loads from unwritten memory stay symbolic on both routes and are not compared; registers wider than 64 bits are left unbound. Every obligation is seeded (optional): an obligation the solvers cannot decide is reported as not decided, not as a failure.",
     "design_ref": "DESIGN.md section 4 (C02)",
     "explanation": "bounded symbolic verification of block-map versus step-by-step execution on symbolic register states",
